@@ -58,7 +58,7 @@ int main(int argc, char** argv) {
     R.sample_every = 200;
     const bool T = R.thorough();
     std::vector<unsigned> stepss = T ? std::vector<unsigned>{16, 24, 40, 64, 100, 200, 400} : std::vector<unsigned>{24, 64};
-    std::vector<unsigned> ns = T ? std::vector<unsigned>{32, 33, 48, 64, 96} : std::vector<unsigned>{32};
+    std::vector<unsigned> ns = T ? std::vector<unsigned>{32, 33, 48, 64, 65, 96} : std::vector<unsigned>{32, 33};
     std::vector<float> shifts = T ? std::vector<float>{-3, 0, 2} : std::vector<float>{0, 2};
     std::vector<unsigned> its = T ? std::vector<unsigned>{2, 3, 4} : std::vector<unsigned>{3, 4};
     const double starts[][2] = {{1.0, 0.0}, {0.0, -1.2}, {-0.8, 0.7}, {0.5, 1.0}, {-1.1, -0.4}, {0.9, -0.9}, {0.0, 0.6}, {-0.6, 0.0}, {0.3, 0.25}};
